@@ -1,0 +1,112 @@
+//go:build verif
+
+package intermediate
+
+import (
+	"time"
+
+	"github.com/vmware/go-ipfix/pkg/entities"
+)
+
+// Verification hooks (build tag "verif"): they only export what is
+// unexported; no behaviour of the package changes.
+
+// VerifItem is a snapshot of one expiry-queue entry.
+type VerifItem struct {
+	Key            FlowKey
+	Index          int
+	Active         time.Time
+	Inactive       time.Time
+	Record         *AggregationFlowRecord
+	RecordHasItem  bool // record.PriorityQueueItem points back to this entry
+	InMap          bool // the map holds exactly this record under Key
+	ReadyToSend    bool
+	Retries        int
+	CorrelatedFlag bool
+}
+
+// VerifSnapshot returns the heap array in array order and the map keys.
+func (a *AggregationProcess) VerifSnapshot() (items []VerifItem, mapKeys []FlowKey) {
+	a.mutex.Lock()
+	defer a.mutex.Unlock()
+	for _, it := range a.expirePriorityQueue {
+		vi := VerifItem{Index: it.index, Active: it.activeExpireTime, Inactive: it.inactiveExpireTime, Record: it.flowRecord}
+		if it.flowKey != nil {
+			vi.Key = *it.flowKey
+			if r, ok := a.flowKeyRecordMap[*it.flowKey]; ok && r == it.flowRecord {
+				vi.InMap = true
+			}
+		}
+		if it.flowRecord != nil {
+			vi.RecordHasItem = it.flowRecord.PriorityQueueItem == it
+			vi.ReadyToSend = it.flowRecord.ReadyToSend
+			vi.Retries = it.flowRecord.waitForReadyToSendRetries
+			vi.CorrelatedFlag = it.flowRecord.areCorrelatedFieldsFilled
+		}
+		items = append(items, vi)
+	}
+	for k := range a.flowKeyRecordMap {
+		mapKeys = append(mapKeys, k)
+	}
+	return
+}
+
+// VerifShiftDeadlines moves every queued deadline by d (virtual time).
+func (a *AggregationProcess) VerifShiftDeadlines(d time.Duration) {
+	a.mutex.Lock()
+	defer a.mutex.Unlock()
+	for _, it := range a.expirePriorityQueue {
+		it.activeExpireTime = it.activeExpireTime.Add(d)
+		it.inactiveExpireTime = it.inactiveExpireTime.Add(d)
+	}
+}
+
+// VerifSetDeadlines overwrites the deadlines of the entry for key (arbitrary
+// valid pre-states for inductive steps); the heap is re-established with the
+// package's own heap operations by the caller pushing in order.
+func (a *AggregationProcess) VerifSetDeadlines(key FlowKey, active, inactive time.Time) bool {
+	a.mutex.Lock()
+	defer a.mutex.Unlock()
+	r, ok := a.flowKeyRecordMap[key]
+	if !ok || r.PriorityQueueItem == nil {
+		return false
+	}
+	a.expirePriorityQueue.Update(r.PriorityQueueItem, r.PriorityQueueItem.flowKey, r, active, inactive)
+	return true
+}
+
+// VerifSetFlowState overwrites the readiness flag and retry count of a flow.
+func (a *AggregationProcess) VerifSetFlowState(key FlowKey, ready bool, retries int) bool {
+	a.mutex.Lock()
+	defer a.mutex.Unlock()
+	r, ok := a.flowKeyRecordMap[key]
+	if !ok {
+		return false
+	}
+	r.ReadyToSend = ready
+	r.waitForReadyToSendRetries = retries
+	return true
+}
+
+// VerifAddOrUpdate drives addOrUpdateRecordInMap for one record.
+func (a *AggregationProcess) VerifAddOrUpdate(key *FlowKey, record entities.Record, isIPv4 bool) error {
+	return a.addOrUpdateRecordInMap(key, record, isIPv4)
+}
+
+// VerifFlowKey exposes getFlowKeyFromRecord.
+func VerifFlowKey(record entities.Record) (*FlowKey, bool, error) {
+	return getFlowKeyFromRecord(record)
+}
+
+// VerifFlowRecord returns the aggregation record of a key.
+func (a *AggregationProcess) VerifFlowRecord(key FlowKey) (*AggregationFlowRecord, bool) {
+	a.mutex.Lock()
+	defer a.mutex.Unlock()
+	r, ok := a.flowKeyRecordMap[key]
+	return r, ok
+}
+
+// VerifTimeouts returns the configured timeouts.
+func (a *AggregationProcess) VerifTimeouts() (active, inactive time.Duration) {
+	return a.activeExpiryTimeout, a.inactiveExpiryTimeout
+}
